@@ -158,6 +158,23 @@ theorem bad_parameters_fail_transform (fmt name : Str) (props : List (Str × Lis
     (rest : List Node) (o : OpSig) (h : findOp false name = some o) (hd : decodeOk props o.fields = false) :
     buildTail fmt (.mk name props sources :: rest) = none := build_tran_decode fmt name props sources rest o h hd
 
+/-! ## the order of the operations that are built -/
+
+/-- `VPLPipeline::split`: the head and the other operations **in text order** (a `swap_remove(0)` instead of
+    `remove(0)` would hand `[t3, t1, t2]` to the factory) -/
+theorem split_keeps_order (n : Node) (ns : List Node) : splitPipeline (n :: ns) = some (n, ns) := rfl
+
+/-- for every written pipeline: what `build_pipeline` receives is the first operation of the text and the
+    remaining operations of the text, in the order of the text -/
+theorem split_of_render (d : Nat) (c : CPipe d) :
+    splitPipeline (treeOf d c) = some (nodeTree d c.first, c.more.map (nodeTree d)) := rfl
+
+/-- the built operation nests the transform stages in text order: `r | t1 | t2` is `t2(t1(r))`, so its
+    description shows `t2`, then `t1`, then the read operation with its sources -/
+theorem stages_nest_in_text_order (r t1 t2 : Node) :
+    markersPipeline [r, t1, t2] = markerOf t2 ++ (markerOf t1 ++ markersRead r) := by
+  simp [markersPipeline]
+
 /-! ## totality of the model (the statement C19 relies on for the VPL entry point) -/
 
 /-- for **every** text the verdict of the parser model is a pipeline or an error: the recursion fuel
